@@ -4,6 +4,7 @@ C06 — dangling parameter/service references are detected, exactly.
 import GontainerModel.Lemmas.C06Aux
 import GontainerModel.Model.Compile
 import GontainerModel.Generated.Wiring
+import GontainerModel.Lemmas.PatternDeps
 namespace GM.C06
 open GM GM.Output
 
@@ -97,5 +98,26 @@ def witness : Output :=
   { decorators := [{ tag := "t", decorator := "f", raw := "f", args := [{ code := "", raw := .str "%x%", depParams := ["x"] }] }] }
 example : validateParamsExist witness
     = ["output.ValidateParamsExist: decorator(#0, \"t\"): param \"x\" does not exist"] := by decide
+
+/-- **every `%ref%` of a pattern is recorded as a dependency**, whatever its position in the string and whatever
+precedes it (literal text, `%%`, function calls, other references), in order and with repetitions: the recorded
+parameter dependencies of a compiled pattern are exactly the references among its tokens -/
+theorem pattern_deps_all_refs (fns : List Token.FnDef) (st st' : Imports.St) (s : String) (a : Output.Arg)
+    (h : Compile.resolveWith .pattern fns st (.str s) = (st', .ok a)) :
+    ∃ ts, (Token.tokenize fns st s).2 = .ok ts ∧ a.depParams = ts.filterMap Token.refOf := by
+  simp only [Compile.resolveWith] at h
+  rcases ht : Token.tokenize fns st s with ⟨st1, r⟩
+  rw [ht] at h
+  cases r with
+  | error es => simp at h
+  | ok ts =>
+    simp only at h
+    cases hg : Token.goCode ts with
+    | error e => simp [hg] at h
+    | ok c =>
+      simp only [hg, Prod.mk.injEq, Except.ok.injEq] at h
+      refine ⟨ts, rfl, ?_⟩
+      rw [← h.2]
+      exact Token.flatMap_deps ts (Token.tokenize_deps fns st s ts (by rw [ht]))
 
 end GM.C06
